@@ -33,7 +33,7 @@ Theorem all_variants_outside_span : forall ms s vs a b t i,
 Proof.
 Admitted.
 
-(* the frozen case is an error in Python (unpacking None): the model returns None *)
-Theorem all_variants_frozen : forall ms s, multichoices ms = [] -> all_variants ms s = None.
+(* the frozen case: the only variant is the sequence itself *)
+Theorem all_variants_frozen : forall ms s, multichoices ms = [] -> all_variants ms s = Some [s].
 Proof.
 Admitted.
